@@ -4,7 +4,8 @@ SPEC = {
     "level": "exploration",
     "stages": [{"name": "main", "harness": "C17_capture.cpp", "config": "san",
                 "deadline": {"quick": 600, "thorough": 3000}}],
-    "technique": "bounded exhaustive enumeration of capture files (all frame sequences over a per-link-type alphabet) read through every reader of the sniffer API",
+    "technique": ("bounded exhaustive enumeration of capture files (all frame sequences over a per-link-type alphabet) read through every reader of the sniffer API; "
+                  "explicit-state BFS to fixpoint over object histories (construct / use / move) of sniffer and writer slots with a reference model and drain probes"),
     "rule": ("for each link type in {EN10MB, RAW, NULL, LINUX_SLL, IEEE802_11, IEEE802_11_RADIO, PPI}: EVERY sequence of length <= 3 (quick) / <= 4 "
              "(thorough) over an alphabet of 9 frames {two well-formed packets that are serialization fixpoints, truncated header, zero-length frame, "
              "one garbage frame per rejection class of the top-level parser (inner parser rejects / length field beyond or below the frame / "
@@ -29,14 +30,29 @@ SPEC = {
              "push_backs, of a copied vector and of a vector assigned from it; every source destroyed before use; buffer overload on all, PDU "
              "overload on the original) = pcap_offline_filter for ITS expression on "
              "every frame; SnifferConfiguration is used through a copy of a copy assigned over a configuration with other settings; expressions libpcap rejects for a link type must be refused (invalid_pcap_filter / false). "
+             "OBJECT HISTORIES: explicit-state BFS to fixpoint over the reference-model states of 2 FileSniffer slots x 3 captures of different "
+             "link types (quick: 4 configurations, 3 frames per capture, set_filter OR extract_raw op; thorough: 8 link-type triples covering all 7 "
+             "link types, 4 frames, both ops); ops = construct on capture k, next_packet, sniff_loop to the end, set_filter('tcp port 80' / ''), "
+             "set_extract_raw_pdus, move-assign slot<-slot, move-assign slot<-fresh sniffer on capture k, move-construct, destroy; model slot = "
+             "(capture, cursor, end-of-file seen, filter, raw), a move transfers exactly that and the source is only destroyed or assigned to "
+             "afterwards; every transition replays its whole history on fresh objects, judges every next()/loop (class, bytes, timestamp, "
+             "null at the end), link_type() of every live slot after every op, and then PROBES: drains every live slot (next_packet / iterator / "
+             "sniff_loop rotating) against the model, so state hidden in the object shows although model states are merged. Same BFS for 2 "
+             "PacketWriter slots x 3 files of different link types (construct, write(Packet&), move-assign slot<-slot / <-fresh, move-construct, "
+             "destroy; <= 2 (quick) / 3 (thorough) records per file): after all writer objects are gone every opened file is a complete capture "
+             "of its own link type holding exactly the packets written through the slot that referred to it, unopened files are untouched. "
              "evaluations = file reads judged; distinct_nontrivial = distinct (link type, filter, per-frame accept/skip pattern) with at least "
-             "one accepted and one skipped frame."),
+             "one accepted and one skipped frame, plus history model states with two live objects or a moved-from object / >= 2 files in play."),
     "claim": ("Every frame sequence up to the length bound over the alphabet is a file that was written, read by every reader and judged; "
               "frames are handled independently by the loop except for the libpcap buffer they share, so sequences of length 2 already cover "
-              "every (previous frame, frame) pair and the longer ones cover skip chains before/after/between accepted frames and the end of file."),
+              "every (previous frame, frame) pair and the longer ones cover skip chains before/after/between accepted frames and the end of file. "
+              "Object histories: the reachable set of reference-model states of two slots is finite and explored to fixpoint; every transition out of "
+              "every reachable state is executed on the real objects and followed by a drain probe."),
     "note": ("Trusted: libpcap (file reading, filter compilation and evaluation), the sanitizers, the harness' 20-line pcap writer/reader. "
              "Bound: sequence length, the 9-frame alphabets, 3 timestamps, 8 filter expressions, one filter replacement per read. rot=1,2 run a reduced reader set (timestamps "
-             "do not interact with readers); constructors are a full product only for sequences of length <= 1."),
+             "do not interact with readers); constructors are a full product only for sequences of length <= 1. "
+             "Histories: 2 slots, 3 captures of 3-4 frames, one filter expression; merged model states are justified by the drain probe after every transition, "
+             "not by a proof that the implementation has no further hidden state."),
     "assumptions": ["libpcap reads what libpcap-format files contain and pcap_offline_filter is the reference verdict (DESIGN appendix C)",
                     "no frame that makes a top-level parser throw anything but malformed_packet is known (1M one-byte deviations/truncations of 30 seeds searched); "
                     "the alphabet therefore has none",
